@@ -166,7 +166,7 @@ func runC13(c *Ctx) {
 			bad := ""
 			for k, g := range []*ssa.Function{save, roll} {
 				res := ssau.AbsWalk(g, ssau.AbsEnvFunc(func(i *ssa.If, visit int) (bool, bool) {
-					return syms.evalCond(i.Cond, env, visit, i.Block().Comment)
+					return syms.evalCond(i.Cond, env, visit, blockComment(i))
 				}))
 				if res.Ret == nil {
 					bad = fmt.Sprintf("cannot evaluate %s for version %d", fname(g), ver)
